@@ -29,6 +29,7 @@ type stressCaller struct {
 // StressResult is what one hook-free concurrent trial showed.
 type StressResult struct {
 	Callers, Frames int
+	Decoys          int // frames with a header value embedding another caller's serialised _opid pair
 	CrossSubject    int // frames published on the reply subject of another request (NATS)
 	Shape           string
 	Bad             string // C01 refuted (correlation)
@@ -166,9 +167,16 @@ func StressTrial(legName string, n int, seed int64, nats *NatsServer, maxCopies 
 	// decide who completes.  The first copy for an answered caller always
 	// travels on its own subject so that every 'A' caller can return.
 	type fr struct {
-		op   uint64
-		tok  string
-		subj uint64
+		op    uint64
+		tok   string
+		subj  uint64
+		decoy uint64 // != 0: a header value of the frame embeds an _opid pair naming this op id
+	}
+	build := func(f fr) []byte {
+		if f.decoy != 0 {
+			return FrameWithDecoy(f.op, f.decoy, f.tok)
+		}
+		return FrameFor(f.op, f.tok)
 	}
 	var plan []fr
 	otherSubj := func(own uint64) uint64 {
@@ -185,14 +193,21 @@ func StressTrial(legName string, n int, seed int64, nats *NatsServer, maxCopies 
 				if k > 0 {
 					subj = otherSubj(c.opid)
 				}
-				plan = append(plan, fr{c.opid, fmt.Sprintf("resp:c%d:k%d", i, k), subj})
+				var decoy uint64
+				if rng.Intn(3) == 0 {
+					decoy = cs[rng.Intn(len(cs))].opid
+					if decoy != c.opid {
+						res.Decoys++
+					}
+				}
+				plan = append(plan, fr{c.opid, fmt.Sprintf("resp:c%d:k%d", i, k), subj, decoy})
 			}
 		}
 	}
 	for u := rng.Intn(4); u > 0; u-- {
 		uctx := frugal.NewFContext("")
 		uop := OpidOf(uctx)
-		plan = append(plan, fr{uop, "resp:unknown", otherSubj(uop)})
+		plan = append(plan, fr{uop, "resp:unknown", otherSubj(uop), cs[rng.Intn(len(cs))].opid})
 	}
 	switch rng.Intn(3) {
 	case 0: // any permutation
@@ -211,7 +226,7 @@ func StressTrial(legName string, n int, seed int64, nats *NatsServer, maxCopies 
 		leg.Inject(0, all) // several frames in one read
 	} else {
 		for _, f := range plan {
-			leg.Inject(f.subj, FrameFor(f.op, f.tok))
+			leg.Inject(f.subj, build(f))
 		}
 	}
 	res.Frames = len(plan)
